@@ -30,7 +30,7 @@ func Harnesses() []PkgHarness {
 			func(d Lopd, z int, f func(int, int) fp.Option[int]) fp.Option[int] {
 				return list.FoldOption(d.List(), z, f)
 			})), Program: &Check{Name: "list.program", Run: func(c *Cas) { RunListProgram(c, ListOps(c), nil) }}},
-		{Prof: ProfIterator, Checks: Concat(ChecksIterator(), foldChecks("iterator",
+		{Prof: ProfIterator, Extra: append(GoMapHits(), gcSourceHits()...), Checks: Concat(ChecksIterator(), ChecksGoMap(), foldChecks("iterator",
 			func(d Lopd, z int, f func(int, int) fp.Try[int]) fp.Try[int] { return iterator.FoldTry(d.Iter(), z, f) },
 			func(d Lopd, z int, f func(int, int) fp.Option[int]) fp.Option[int] {
 				return iterator.FoldOption(d.Iter(), z, f)
